@@ -122,3 +122,29 @@ Example c10_history_nonvacuous :
              (Sync.api_job (HistoryP.jrun_world cfg (World.init_jworld ex_hist_job 100) ops))
   = Some ([("j-aaaaaa-0"%string, RSucceeded)], PhSucceeded).
 Proof. vm_compute. reflexivity. Qed.
+
+
+(** REFUTED on the faithful model (finding F15): "a finished Job has no live task" is false
+    over histories.  Two indexes, one attempt each; a foreign Pod occupies the task name of
+    index bbbbbb.  The pass creates the task of index aaaaaa, then the create for bbbbbb hits
+    the foreign Pod: the Job is refused with an admission error - finished - by a status
+    that does not even list the Pod the same pass created, and nothing ever deletes that Pod:
+    it runs on under a finished Job.  The same history is the corpus case
+    F15-admission-error-leaves-tasks of the job stream. *)
+Theorem c10_finished_without_live_task_refuted :
+  exists cfg j0 now ops,
+    let w := HistoryP.jrun_world cfg (Job.World.init_jworld j0 now) ops in
+    option_map (fun a => (Job.Core.j_phase a, map Job.Core.tr_name (Job.Core.j_tasks a))) (Job.Sync.api_job w)
+      = Some (Job.Core.PhAdmissionError, []) /\
+    In ("j-aaaaaa-0"%string, Job.Core.PRunning, None, true)
+       (map (fun p => (Job.Core.p_name p, Job.Core.p_phase p, Job.Core.p_deletion p, Job.Core.p_controlled p)) (Job.Sync.api_pods w)).
+Proof.
+  exists (Job.Sync.mkCfg (Some 900) (Some 900) (Some 3600)),
+    (Job.Core.mkJob ["aaaaaa"%string; "bbbbbb"%string] false Job.Core.AllSuccessful 1 0 false false None false None None false true None (Some 10)
+           [] 0 0 None (Job.Core.CWaiting Job.Core.WPendingCreation) Job.Core.PhStarting Job.Core.SWaiting), 100%Z,
+    [Job.World.JForeign "bbbbbb" 0; Job.World.JAdvanceJob 9; Job.World.JAdvancePods 9; Job.World.JSync;
+     Job.World.JKubelet "j-aaaaaa-0" Job.World.KSchedule; Job.World.JKubelet "j-aaaaaa-0" Job.World.KRun;
+     Job.World.JAdvanceJob 9; Job.World.JAdvancePods 9; Job.World.JSync; Job.World.JAdvanceJob 9; Job.World.JAdvancePods 9; Job.World.JSync].
+  vm_compute. split; [reflexivity|]. right. left. reflexivity.
+Qed.
+Print Assumptions c10_finished_without_live_task_refuted.
